@@ -231,7 +231,8 @@ def corruptions(S, rng, n=12):
         return out
     for _ in range(n):
         k = rng.choice(['drop', 'undeclared', 'redeclare', 'wrong-length', 'bad-structure', 'unbalanced', 'no-rate', 'unknown-type',
-                        'units', 'degenerate', 'dup', 'non-iupac', 'swap-order', 'macro-name', 'empty-structure-strands'])
+                        'units', 'degenerate', 'dup', 'non-iupac', 'swap-order', 'macro-name', 'empty-structure-strands',
+                        'structure-length'])
         i = rng.randrange(len(stmts))
         new = list(stmts)
         if k == 'drop':
@@ -271,6 +272,14 @@ def corruptions(S, rng, n=12):
         elif k == 'macro-name':
             c = list(S.complexes) or ['A']
             new.append(('rest', 'state nobody = [%s]' % ', '.join(c[:2])))
+        elif k == 'structure-length':
+            # multi-stranded strand-notation complexes whose structure has the wrong number of characters: shorter than
+            # the first strand, shorter than the sequence, longer, a single character
+            d = rng.choice(list(S.domains))
+            new.append(('comp', 'strand sl1 = %s %s' % (d, d)))
+            new.append(('comp', 'strand sl2 = %s' % d))
+            st = rng.choice(['sl1 + sl2', 'sl1 + sl2 + sl1', 'sl2 + sl1', 'sl1 + sl1'])
+            new.append(('sc', 'structure SL = %s : %s' % (st, rng.choice(['..', '.', '(', ')', '(+', '..+', '.+.', '....+....+...', '((', '. .', '()', '.+', '+']))))
         elif k == 'empty-structure-strands':
             new.append(('sc', 'structure ES = + : .'))
         out.append((k, '\n'.join(t for _, t in new) + '\n'))
